@@ -214,6 +214,12 @@ func c09Oracle(p *Plan) *Verdict {
 				// the re-framing path does not look inside payloads: the corrupt payload arrives, well framed, and the client's own decompressor rejects it
 				continue
 			}
+			if payloadFault && side == "response-fault" && (strings.Contains(prob, "does not decompress") || strings.Contains(prob, "does not decode as")) && relayedVerbatim(p, st) {
+				// the same on paths with a side without envelopes (REST, Connect unary) when codec and compression need no
+				// conversion: the backend's payload is relayed byte for byte, unopened, and the client's own decoder rejects it
+				v.probe("payload-fault-relayed-verbatim")
+				continue
+			}
 			f := copyFacts(facts)
 			f["side"] = side
 			rule := classifyResponseProblem(prob, problemClass(prob), f)
@@ -233,6 +239,33 @@ func c09Oracle(p *Plan) *Verdict {
 		}
 	}
 	return v
+}
+
+// relayedVerbatim: the faulty payload the backend wrote is, byte for byte, what the client received as its (only) message:
+// the whole body for clients without envelopes, or one well-formed envelope around exactly those bytes.
+func relayedVerbatim(p *Plan, st *rpcState) bool {
+	rc := &p.RPCs[0]
+	rp := &rc.Backend.Resp
+	var faulty []byte
+	switch {
+	case p.Note == "resp-bitflip":
+		for _, m := range rp.Msgs {
+			if m.RawPayload != nil {
+				faulty = m.RawPayload
+			}
+		}
+	case p.Note == "resp-cut" && len(st.respPayloads) == 1 && rp.CutAt > 0 && rp.CutAt < len(st.respPayloads[0]):
+		faulty = st.respPayloads[0][:rp.CutAt]
+	}
+	if len(faulty) == 0 || st.rw == nil || len(st.Backend) != 1 {
+		return false
+	}
+	got := st.rw.Visible
+	if !enveloped(rc.Client.Form) {
+		return bytes.Equal(got, faulty)
+	}
+	frames, _ := splitFrames(got)
+	return len(frames) >= 1 && frames[0].Flags&^1 == 0 && bytes.Equal(frames[0].Payload, faulty)
 }
 
 // respFaultMalformed decides, from the script, whether the bytes the backend put on the wire are malformed for its protocol.
@@ -352,6 +385,41 @@ func c09Corpus() []*Plan {
 					out = append(out, p)
 				}
 			}
+		}
+	}
+	// REST on either side (the generic corpus above has neither): a REST client of the bound method against each RPC
+	// target, and RPC clients against a REST-only service. With Connect unary on the other side neither leg has envelopes.
+	restVariants := []variant{
+		{"json", "json", "", []string{}},
+		{"json", "proto", "", []string{}},
+		{"json", "json", "gzip", []string{"gzip"}},
+		{"json", "json", "gzip", []string{}},
+	}
+	reqData := []byte{0x18, 1, 0x72, 0x03, 'r', 'e', 'q'}
+	respMsg := MsgSpec{Data: []byte{0x18, 11, 0x72, 0x04, 'r', 'e', 's', 'p'}, Compressed: true}
+	sch := getSchema("sim")
+	for _, target := range allTargetProtocols {
+		for _, va := range restVariants {
+			svc := simSvc([]string{target}, []string{va.scodec}, va.scomps)
+			svc.MaxMsg = 1 << 20
+			cp := simClient(FormREST, "RestAll", "json", va.ccomp, MsgSpec{Data: reqData, Compressed: true})
+			cp.HTTPMethod, cp.Path = "POST", "/sim/v1/all"
+			rm := newMessageFor(sch.method("RestAll").Input())
+			_ = proto.Unmarshal(reqData, rm)
+			cp.RestJSON, _ = refMarshal("json", rm)
+			p := basePlan(svc, cp, BackendPlan{Resp: RespPlan{TrailerStyle: "prefix", Compression: va.ccomp, Msgs: []MsgSpec{respMsg}}})
+			p.Pool.Poison = false
+			out = append(out, p)
+		}
+	}
+	for _, form := range []string{FormGRPC, FormGRPCWeb, FormConnectUnary} {
+		for _, va := range []variant{{"proto", "json", "", []string{}}, {"json", "json", "", []string{}}, {"json", "json", "gzip", []string{"gzip"}}, {"proto", "json", "gzip", []string{}}} {
+			svc := simSvc([]string{ProtoREST}, []string{va.scodec}, va.scomps)
+			svc.MaxMsg = 1 << 20
+			cp := simClient(form, "RestAll", va.ccodec, va.ccomp, MsgSpec{Data: reqData, Compressed: true})
+			p := basePlan(svc, cp, BackendPlan{Resp: RespPlan{TrailerStyle: "prefix", Compression: va.ccomp, Msgs: []MsgSpec{respMsg}}})
+			p.Pool.Poison = false
+			out = append(out, p)
 		}
 	}
 	return out
@@ -577,6 +645,19 @@ func c09Boundary(base *Plan) []*Plan {
 			add("resp-cut", func(p *Plan) { p.RPCs[0].Backend.Resp.CutAt = off })
 		}
 		add("resp-omit-end", func(p *Plan) { p.RPCs[0].Backend.Resp.OmitEnd = true })
+		if !d.Backend[0].Stream {
+			// a declared Content-Length that the body does not honour, by one byte either way
+			for _, dl := range []string{"+1", "-1"} {
+				dl := dl
+				add("resp-cl", func(p *Plan) { p.RPCs[0].Backend.Resp.DeclareCL = dl })
+			}
+		}
+	}
+	if !enveloped(rc.Client.Form) && rc.Client.Form != FormConnectGet {
+		for _, dl := range []string{"+1", "-1"} {
+			dl := dl
+			add("req-cl", func(p *Plan) { p.RPCs[0].Client.DeclareCL = dl })
+		}
 	}
 	return out
 }
